@@ -99,38 +99,7 @@ static void hostile_pbf(Src& s) {
     std::stable_sort(data.begin(), data.end(), [](const model::Obj& a, const model::Obj& b) { return a.type < b.type; });
     size_t placed = 0;
     for (size_t round = 0; round < 40; ++round) {
-    enc::PbfEncoder::Hostile h;
-    static const uint64_t sids[] = {1000, 100000, 0x7fffffffULL, 0x80000000ULL, 0xffffffffULL, 0x100000000ULL, ~0ULL, ~0ULL - 1, ~0ULL - 2, static_cast<uint64_t>(INT32_MIN), 1ULL << 63, 0};
-    switch (s.weighted({5, 4, 2, 1, 1})) {
-        case 0:
-            h.sid_at = static_cast<int>(s.draw(16));
-            h.sid_value = sids[s.draw(sizeof(sids) / sizeof(sids[0]))];
-            break;
-        case 1:
-            h.packed_at = static_cast<int>(s.draw(16));
-            h.packed_how = static_cast<int>(s.draw(4));
-            break;
-        case 2: {
-            h.rawsize_at = static_cast<int>(s.draw(3));
-            static const int64_t deltas[] = {-1, 1, -100, 100, 65536, 1 << 20};
-            static const int64_t abss[] = {0, 1, 0x7fffffff, 32 * 1024 * 1024, 32 * 1024 * 1024 + 1, 0xffffffffLL, INT64_MAX};
-            if (s.boolean()) h.rawsize_delta = deltas[s.draw(6)];
-            else h.rawsize_abs = abss[s.draw(7)];
-            break;
-        }
-        case 3: {
-            static const int64_t gr[] = {0, -1, -100, 1, INT32_MAX, INT64_MAX, INT64_MIN, 1LL << 40};
-            h.set_granularity = true;
-            h.granularity = gr[s.draw(8)];
-            break;
-        }
-        default: {
-            static const int64_t gr[] = {0, -1, -1000, 1, INT32_MAX, INT64_MAX, INT64_MIN, 1LL << 40};
-            h.set_date_granularity = true;
-            h.date_granularity = gr[s.draw(8)];
-            break;
-        }
-    }
+    enc::PbfEncoder::Hostile h = filegen::gen_hostile(s);
     enc::Choices ch;
     enc::PbfPlan plan;
     enc::Header hdr;
